@@ -29,7 +29,7 @@ ID = "C07"
 LEVEL = "exploration"
 MIN_OUTCOMES = 3
 MANIFEST = {
-    'text': 'Exhaustive over the stated literal alphabet (69 symbols) up to length 2/3 plus length-40 repetitions, in 4 contexts: the compiled regex must consist of literal nodes for the literal text (structure oracle), must find exactly what a reference regex built with re.escape finds on the exact line and on every single-character edit of it, and rendering must reproduce the text; grep/update are driven through the CLI for every single symbol (conformance of the library seam), with the text in the middle of a line, at its very start, at its very end and alone on it, on the first/middle/last line of a file with and without final newline, and - for update - with the symbol before and after {version}; 45 regex-idiom literals in every tier.',
+    'text': 'Exhaustive over the stated literal alphabet (69 symbols) up to length 2/3 plus length-40 repetitions, in 4 contexts: the compiled regex must consist of literal nodes for the literal text (structure oracle), must find exactly what a reference regex built with re.escape finds on the exact line and on every single-character edit of it, and rendering must reproduce the text; grep/update are driven through the CLI for every single symbol (conformance of the library seam), with the text in the middle of a line, at its very start, at its very end and alone on it, on the first/middle/last line of a file with and without final newline, and - for update - with the symbol before and after {version}, the patterns given through bumpver.toml and through setup.cfg; 45 regex-idiom literals in every tier.',
     'note': 'non-ASCII literals and strings longer than 3 symbols with more than two distinct symbols are outside the bound',
     'technique': 'exhaustive enumeration of a bounded input grammar against a reference recogniser (structural + behavioural oracle)',
 }
